@@ -214,7 +214,7 @@ func (k *Contract) mentions(p string) bool {
 
 func cmdCheck(g *Gen, prop, tier, evid, replayDir, knownPath string, loadSecs float64) int {
 	t0 := time.Now()
-	timeout := 30
+	timeout := 60
 	if tier == "thorough" {
 		timeout = 120
 	}
